@@ -303,6 +303,21 @@ func StructFieldsAsArgumentsAction(explicitFields ...string) RewriteAction {
 		assignmentPathPrefix := oldAssignments[0].Path
 		structType := firstArgType.AsStruct()
 
+		// the fields can only be assigned under the path if the argument itself is what is
+		// assigned there: not one branch of a disjunction, not a field of an envelope
+		firstValue := oldAssignments[0].Value
+		if firstValue.Argument == nil || firstValue.Argument.Name != option.Args[0].Name || len(assignmentPathPrefix) == 0 {
+			return []ast.Option{option}
+		}
+		targetType := assignmentPathPrefix.Last().Type
+		argType := option.Args[0].Type
+		if targetType.IsArray() && !argType.IsArray() {
+			targetType = targetType.AsArray().ValueType
+		}
+		if targetType.Kind != argType.Kind || (targetType.IsRef() && argType.IsRef() && targetType.AsRef().String() != argType.AsRef().String()) {
+			return []ast.Option{option}
+		}
+
 		newOpt := option
 		newOpt.Args = nil
 		newOpt.Assignments = nil
